@@ -504,6 +504,14 @@ func TestReplay(t *testing.T) {
 		rapid.MakeFuzz(seqProp("FuzzImmutableSequences"))(t, b)
 		return
 	}
+	if ev.ReplayTest(path) == "TestFreezeCyclic" {
+		var cp cyclicPayload
+		if _, err := ev.LoadReplay(path, &cp); err != nil {
+			t.Fatalf("load %s: %v", path, err)
+		}
+		checkFreezeCyclic(t, "TestFreezeCyclic", cp)
+		return
+	}
 	var p payload
 	test, err := ev.LoadReplay(path, &p)
 	if err != nil {
